@@ -97,6 +97,10 @@ func ValidateTransaction(ctx sdk.Ctx, k Keeper, stdTx StdTx, params Params, tmNo
 	if !ok {
 		return types.ErrTooManySignatures(ModuleName, params.TxSigLimit)
 	}
+	// the fee requirement is the same for multisignature keys
+	if !stdTx.Fee.IsAllGTE(expectedFee) {
+		return types.ErrInsufficientFee(ModuleName, expectedFee, stdTx.Fee)
+	}
 	// validate the multi sig
 	if !simulate && !pk.VerifyBytes(signBytes, stdTx.Signature.Signature) {
 		return sdk.ErrUnauthorized("multisignature verification failed for the transaction")
